@@ -231,20 +231,26 @@ def run(F, R, tier):
         ok = all(got[k_] == v_ for k_, v_ in cases.items())
         r2.site("denormalized_components folds to %s" % {k_: got[k_] for k_ in cases})
         r2.require(ok, ("denormalized_components", "shape"), "components are not split at the first ':' with DEFAULT_NETWORK as the implicit network: %s" % {k_: got[k_] for k_ in cases if got[k_] != cases[k_]})
-    h = F.hir(ID + "::new")
-    if r2.anchor(h, ID + "::new"):
-        env = H.Env(h)
-        from c08 import format_calls
-        fc = format_calls(h, env)
-        ok = False
-        for tpl, oo, node in fc:
-            shape = "".join("{}" if t[0] == "arg" else t[1] for t in tpl)
-            if shape == "did:{}:{}:{}":
-                ok = oo[0] == {("def", ID + "::METHOD")} and oo[1] == {("param", "network_name")} and bool(oo[2]) and all(o[0] == "call" and o[1].endswith("prefix_hex::encode") for o in oo[2])
-                r2.site("IotaDID::new formats %r over (METHOD, network_name, prefix_hex(bytes))" % shape, node["sp"])
-        r2.require(ok, (ID + "::new", "format"), "IotaDID::new does not build did:iota:<network>:<hex tag>")
-        for c in H.calls(h, re.compile(r"prefix_hex::encode$")):
-            r2.require(H.origins(c["args"][0], env) == {("param", "bytes")}, (ID + "::new", "bytes"), "the tag is not the hex encoding of the given bytes")
+    fn = ID + "::new"
+    if r2.anchor(F.hir(fn), fn):
+        # by abstract evaluation (helpers inlined, constants folded into the template): the string parsed is
+        # "did:iota:<network_name>:<prefix_hex(bytes)>" and the result is IotaDID::parse(that string)
+        import sibling as SB
+        tab = SR.Table(F, fn, opaque=r"prefix_hex::encode$|IotaDID::parse$|format$|fmt::format$", rule=r2)
+        ok = bool(tab.paths)
+        for q in tab.paths:
+            pat, argv = SB.render_pattern(q)
+            enc = q.calls(r"prefix_hex::encode$")
+            good = (pat == "did:iota:{}:{}" and len(argv) == 2 and SR.pure(argv[0], SR.param("network_name")) and len(enc) == 1 and SR.pure(argv[1], enc[0].result.t))
+            if not r2.require(good, (fn, "format"), "IotaDID::new does not build did:iota:<network>:<hex tag>: formats %r over %s" % (pat, [sym.fmt(a) for a in argv])):
+                ok = False
+                continue
+            r2.require(SR.pure(enc[0].args[0], SR.param("bytes")), (fn, "bytes"), "the tag is not the hex encoding of the given bytes")
+            ps = q.calls(r"IotaDID::parse$")
+            if isinstance(q.ret, sym.V) and q.ret.name == "Panic":
+                continue       # the `expect` on the parse result: C05's business (class RULE ⇐ this rule)
+            r2.require(len(ps) == 1 and SR.derives(q.ret, ps[0].result.t), (fn, "parsed"), "IotaDID::new does not return the parsed (validated, normalised) DID")
+        r2.site("IotaDID::new formats \"did:iota:{}:{}\" over (network_name, prefix_hex(bytes)) and parses it: %s" % ok)
     r2.floor(9)
 
     # ------------------------------------------------------------------ R3 equality on the normalised field
